@@ -1466,3 +1466,13 @@ SPECS["C18"]["level_text"] += (' Track apileft: the model\'s fourth program, Ato
     'machine-level statements above (…_only_update_lock_blocks quantify over every program counter); its own no-lock / no-store / one-own-step theorems are pinned '
     'under C13 (Props/C13Q: sequence_no_lock_no_store, sc_/ra_sequence_one_step, ra_sequence_enabled), and the abt family\'s oracle reports a lock operation or a '
     'store by the real sequence() as a C18 violation.')
+
+# ---- track apileft: Clone / Default of StreamChunker and StreamReader (families chunker, reader)
+_CLONE_TXT = (' Clone / Default (track apileft; harness/src/fam_stream_clone.rs): both types derive Clone (the chunker clone shares the arena chunk behind '
+    'its carry-over buffer - AnchoredSlice::clone, the WOp sClone, whose bytes no later non-backfill step of anyone changes: C20.step-level independence - '
+    'and copies the offset; the reader clone also clones its OwningIovec). The Lean models are functions of the chunker / reader VALUE, so a clone is the identity '
+    'there; ops clone_swap keep|drop (continue on the clone, the original dropped at once or at the end of the case), fork (the clone runs in lockstep on its own '
+    'copy of the scripted reader and must answer every call like the original) and check_default (Default::default() / new() on an empty stream) establish on the '
+    'real code that a clone IS such a value; spliced into ~30% of the random cases in front of the bulk call.')
+SPECS["C06"]["level_text"] += _CLONE_TXT
+SPECS["C08"]["level_text"] += _CLONE_TXT
